@@ -7,6 +7,7 @@ import (
 	"go.uber.org/zap/verif/props/c10"
 	"go.uber.org/zap/verif/props/c13"
 	"go.uber.org/zap/verif/props/c14"
+	"go.uber.org/zap/verif/props/c16"
 	"go.uber.org/zap/verif/props/c17"
 	"go.uber.org/zap/verif/props/c20"
 	"go.uber.org/zap/verif/props/encjson"
@@ -22,5 +23,6 @@ func init() {
 	register("C14", "exploration", c14.Run, nil)
 	register("C07", "exploration", c07.Run, nil)
 	register("C10", "fault_enumeration", c10.Run, nil)
+	register("C16", "exploration", c16.Run, nil)
 	register("C02", "exploration", encjson.Run02, nil)
 }
